@@ -423,6 +423,16 @@ Example C18_ex_device_burst :
 Proof. exact ex_device_burst. Qed.
 Print Assumptions C18_ex_device_burst.
 
+(* that schedule discriminates: a limiter that advances last_step by speed_ms after a step ("steady
+   cadence") instead of recording the time of the step would step at 900 and again at 905, although
+   it takes exactly the model's steps on a schedule without a late pass *)
+Example C18_ex_cadence_would_burst :
+  ~ rate_limited 100 (cadence_times 100 0 burst_ticks) /\
+  cadence_times 100 0 [50; 60; 149; 150; 151; 250; 300; 350; 351; 450] =
+  step_times (snd (drun1 Scroll 8 (fst (dstart Scroll 8 0 [72; 101; 121] 100 true)) [50; 60; 149; 150; 151; 250; 300; 350; 351; 450])).
+Proof. exact (conj ex_cadence_not_rate_limited ex_cadence_same_without_late_pass). Qed.
+Print Assumptions C18_ex_cadence_would_burst.
+
 (* host, looping bounce on the same schedule *)
 Example C18_ex_host_burst :
   exists stn tr, hsteps 8 2 (hstart Bounce 1 [72; 101; 121] 100 true) burst_ticks stn tr /\
